@@ -2,7 +2,7 @@
 from props import enginecore
 
 MODULE = "EngineCore"
-META = {"spec": ["EngineCore", "BarterSystem"]}
+META = {"spec": ["EngineCore", "BarterSystem", "SystemLifecycle"]}
 
 
 def check(ctx):
@@ -10,6 +10,13 @@ def check(ctx):
     # exactly the command it was given - with its filter - to the engine, in order
     from props import composition
     composition.run(ctx, composition.C19_TAGS, runs=3 if ctx.quick else 20)
+    # the System lifecycle (spec/SystemLifecycle.tla): every command handed over before a stop call is processed before the
+    # engine stops - exactly once, in hand-over order, with the content it was given (signatures "lifecycle:cmd_...")
+    from props import lifecycle
+    n_before = len(ctx.violations)
+    lifecycle.run(ctx, lifecycle.C19_TAGS)
+    if len(ctx.violations) > n_before:     # report it now: a tool error in a later stage must not hide this verdict
+        return ctx.finish()
     return enginecore.check(ctx)
 
 
@@ -18,4 +25,7 @@ def replay(ctx, rp):
         from props import composition
         composition.run(ctx, composition.C19_TAGS, runs=3)
         return ctx.finish(write_evidence=False)
+    if rp.get("kind") == "lifecycle":
+        from props import lifecycle
+        return lifecycle.replay(ctx, rp, lifecycle.C19_TAGS)
     return enginecore.replay(ctx, rp)
